@@ -30,6 +30,7 @@
 #include "a/a.h"
 #include "a/utf.h"
 #include "a/str.h"
+#include <sys/mman.h>
 
 /* ------------------------------------------------------------------ plan */
 enum
@@ -42,6 +43,7 @@ enum
     K_BYTES_LONG, /* lead a in FC..FF x 6..7 trailing bytes from a small alphabet (num = 7, 8) */
     K_BYTES_RANDOM,
     K_WELLFORMED,
+    K_GIANT, /* stated lengths of 2^32 + r, 2^33 + r bytes (a truthful, sparsely backed mapping) */
 };
 typedef struct { int kind; uint64_t a, b; } plan_t;
 static plan_t *plan;
@@ -115,6 +117,7 @@ static void vf_init(void)
     for (i = 0xFC; i <= 0xFF; ++i) { plan_add(K_BYTES_LONG, i, 0); }
     for (i = 0; i < (vf.tier ? 160u : 16u); ++i) { plan_add(K_BYTES_RANDOM, 65536, i); } /* thorough: 1.05e7 strings */
     for (i = 0; i < (vf.tier ? 128u : 16u); ++i) { plan_add(K_WELLFORMED, 32768, i); }
+    for (i = 0; i < (vf.tier ? 8u : 2u); ++i) { plan_add(K_GIANT, i, 0); }
 }
 static uint64_t vf_ncases(int tier) { (void)tier; return nplan; }
 
@@ -747,6 +750,65 @@ static void vf_case(uint64_t cno, vf_rng *r)
         vf_log("%" PRIu64 " random byte strings of 0..24 bytes (uniform / class-weighted / cut encodings / one byte overwritten), batch %" PRIu64, p.a, p.b);
         for (i = 0; i < p.a; ++i) { random_string(r); }
         break;
+    case K_GIANT:
+    {
+        /* "for all byte buffers of any stated length": the stated length is a_size, and a decoder that keeps it (or the distance to
+           the end) in 32 bits sees 2^32 + r as r (seeded change C18-I: `unsigned int max = (unsigned int)num` before the clamp to 6
+           makes a complete character at the start of such a buffer decode to 0).  The buffer is real - an anonymous mapping of
+           2^33 + 64 bytes that is never touched beyond its first page, so it costs no memory - and holds a few encoded characters
+           followed by NUL bytes; every stated length below covers all of them. */
+        size_t const N = ((size_t)1 << 33) + 64;
+        unsigned char *m = (unsigned char *)mmap(NULL, N, PROT_READ | PROT_WRITE, MAP_PRIVATE | MAP_ANONYMOUS | MAP_NORESERVE, -1, 0);
+        if (m == MAP_FAILED) { VF_COUNT("giant-mapping-refused"); break; }
+        vf_log("stated lengths of 2^32 + r and 2^33 + r bytes over a sparsely backed mapping");
+        for (unsigned rep = 0; rep < 24; ++rep)
+        {
+            uint32_t cps[3];
+            unsigned lens[3], total = 0;
+            for (unsigned k = 0; k < 3; ++k)
+            {
+                static uint32_t const lo[6] = {1, 0x80, 0x800, 0x10000, 0x200000, 0x4000000}, hi[6] = {0x80, 0x800, 0x10000, 0x200000, 0x4000000, 0x80000000u};
+                unsigned const L = k == 0 ? rep % 6 : (unsigned)vf_below(r, 6);
+                cps[k] = lo[L] + (uint32_t)vf_below(r, hi[L] - lo[L]);
+                lens[k] = a_utf_encode(cps[k], m + total);
+                total += lens[k];
+            }
+            memset(m + total, 0, 8);
+            for (unsigned hb = 0; hb < 4; ++hb)
+            {
+                static size_t const base[4] = {(size_t)1 << 32, (size_t)1 << 33, ((size_t)1 << 32) * 1, ((size_t)1 << 32) - 8};
+                for (unsigned rr = 0; rr < 16; ++rr)
+                {
+                    size_t const num = base[hb] + rr + (hb == 2 ? ((size_t)1 << 31) : 0), stop0 = (size_t)-1;
+                    size_t stop = stop0, cnt;
+                    uint32_t v = 0xFFFFFFFFu;
+                    unsigned d;
+                    if (num < total) { continue; }
+                    CUR(OP_DECODE, cps[0], m, num);
+                    d = a_utf_decode(m, num, &v);
+                    ++vf.evals;
+                    VF_COUNT("giant-stated-length-decode");
+                    if (d != lens[0] || v != cps[0])
+                    {
+                        VIOL("decode/stated-length-beyond-2^32", "a_utf_decode(%s..., num = 0x%zx, &v) = %u, v = U+%" PRIX32 "; the buffer starts with the complete %u-byte encoding of U+%" PRIX32,
+                             hex(m, lens[0]), num, d, v, lens[0], cps[0]);
+                    }
+                    d = a_utf_decode(m, num, NULL);
+                    if (d != lens[0]) { VIOL("decode/stated-length-beyond-2^32", "a_utf_decode(%s..., num = %zu, NULL) = %u instead of %u", hex(m, lens[0]), num, d, lens[0]); }
+                    cnt = a_utf_length(m, num, &stop);
+                    VF_COUNT("giant-stated-length-count");
+                    if (cnt != 3 || stop != total)
+                    {
+                        VIOL("length/stated-length-beyond-2^32", "a_utf_length(%s 00..., num = %zu, &stop) = %zu, stop = %zu; three characters in %u bytes precede the first NUL", hex(m, total), num, cnt, stop, total);
+                    }
+                    cnt = a_utf_length_(m, num);
+                    if (cnt != 3) { VIOL("length_/stated-length-beyond-2^32", "a_utf_length_(%s 00..., num = %zu) = %zu instead of 3", hex(m, total), num, cnt); }
+                }
+            }
+        }
+        munmap(m, N);
+        break;
+    }
     case K_WELLFORMED:
         for (i = 0; i < p.a; ++i)
         {
